@@ -71,6 +71,7 @@ def main():
     seen = set()
     bad = None
     crashes = []
+    misplaced = []
 
     def check(s, origin):
         nonlocal cases, distinct, bad
@@ -92,8 +93,15 @@ def main():
             return
         try:
             t = PageTemplate(s)
-        except TemplateError:
-            return                      # rejected with a proper template error: not this property
+        except TemplateError as e:
+            # rejected with a proper template error: not B-VERBATIM's business, but C11's -- the
+            # token must be exactly the offending substring of THIS source
+            tok = getattr(e, 'token', None)
+            if tok is None or not hasattr(tok, 'pos') or s[tok.pos:tok.pos + len(tok)] != tok:
+                misplaced.append((s, '%s: token %r at offset %r, source there: %r' % (
+                    type(e).__name__, None if tok is None else str.__str__(tok), getattr(tok, 'pos', None),
+                    None if tok is None or not hasattr(tok, 'pos') else s[tok.pos:tok.pos + len(tok)])))
+            return
         except Exception as e:          # noqa
             crashes.append((s, repr(e)))   # not "a document that compiles": C11's business
             return
@@ -134,6 +142,7 @@ def main():
                 break
     print(json.dumps({'cases': cases, 'distinct': distinct, 'violation': bad,
                       'non_template_errors': crashes[:5], 'n_non_template_errors': len(crashes),
+                      'misplaced_errors': misplaced[:5], 'n_misplaced_errors': len(misplaced),
                       'unexpected_crashes': [c for c in crashes if 'Undefined namespace prefix' not in c[1]][:5],
                       'bound': 'all strings over %r up to length %d + grammar documents (seed %d)'
                                % (alphabet, maxlen, seed)}))
